@@ -182,17 +182,18 @@ func findInlineNode(file *ast.File, comment *ast.Comment, fset *token.FileSet) (
 		return file.Decls[i].End() > commentPos
 	})
 
-	// If no declaration found, not inline
-	if idx >= len(file.Decls) {
+	// Comment lies between declarations (or after the last one): it is inline only if it
+	// trails the previous declaration on the same line, e.g. `var x T // @ignore CODE1`
+	if idx >= len(file.Decls) || commentPos < file.Decls[idx].Pos() {
+		if idx > 0 && fset.Position(file.Decls[idx-1].End()).Line == commentLine {
+			if fileContent := fset.File(commentPos); fileContent != nil {
+				return fileContent.LineStart(commentLine), comment.End(), true
+			}
+		}
 		return 0, 0, false
 	}
 
 	decl := file.Decls[idx]
-
-	// If comment is before this declaration, not inline
-	if commentPos < decl.Pos() {
-		return 0, 0, false
-	}
 
 	// Comment is inside declaration - check if there's code on same line before comment
 	var hasCodeOnLine bool
